@@ -43,7 +43,9 @@ CONSTANTS
   \* ---- mechanism switches -------------------------------------------------
   MTrigger,    \* "prev_close": refresh iff not allclose(A_now, A_previous_step)  [pinned code]
                \* "exact"     : refresh iff A_now # A_previous_step              [candidate repair]
-  MReimpose,   \* TRUE: terminal value re-imposed after the Euler step [candidate repair]; FALSE [pinned code]
+  MReimpose,   \* TRUE: a nonzero terminal value is re-imposed after the Euler step [repair]; FALSE [pinned code]
+  MReimposeOnRetry, \* TRUE [repair]: ... after EVERY accepted Euler step; FALSE: mutant (only when the first
+               \* evaluation of |psi|^2 succeeded; a step that was retried with a smaller dt is not re-pinned)
   MMask,       \* TRUE [code]: refresh rewrites free rows only; FALSE: mutant (design canary)
   MBothHalves, \* TRUE [code]: both the U and the conj(U) entries are rewritten; FALSE: mutant
   MFreshLinks, \* TRUE [code]: link variables recomputed on every call; FALSE: mutant (cached from first refresh)
@@ -287,19 +289,23 @@ NoLinks ==
 (* update of psi_i is  psi_i + dt/u sqrt(..) ((eps - |psi_i|^2) psi_i + psi_i): it      *)
 (* leaves 0 at 0 and moves every other value (background.rst, eq. for psi^{n+1}).        *)
 PinnedRowsAreIdentity == \A i \in FixedSites : IsIdentityRow(M, lap, i)
-EulerValue ==
+\* retried: the first solve_for_psi_squared evaluation was refused and the step was accepted with a smaller dt
+\* (adaptive_euler_step); an environment choice.  The re-imposition concerns nonzero values only (0 is kept by
+\* the identity row, as in the code: `if options.terminal_psi and len(fixed_sites)`).
+EulerValue(retried) ==
   IF cfg.v = "none" THEN "free"
-  ELSE IF MReimpose THEN "eq"
-  ELSE IF tv = "eq" /\ cfg.v = "zero" /\ PinnedRowsAreIdentity THEN "eq"
   ELSE IF FixedSites = {} THEN "eq"
+  ELSE IF cfg.v = "nonzero" /\ MReimpose /\ (~retried \/ MReimposeOnRetry) THEN "eq"
+  ELSE IF tv = "eq" /\ cfg.v = "zero" /\ PinnedRowsAreIdentity THEN "eq"
   ELSE "drift"
 
-Euler ==
+Euler(retried) ==
   /\ pc = "euler"
-  /\ tv' = EulerValue
+  /\ tv' = EulerValue(retried)
   /\ drifted' = (drifted \/ tv' = "drift")
   /\ pc' = IF cfg.scr THEN "induced" ELSE "finish"
   /\ UNCHANGED <<cfg, hist, opsvars, step, s, curA, prevA, ind>>
+EulerStep == pc = "euler" /\ \E retried \in BOOLEAN : Euler(retried)
 
 \* get_induced_vector_potential: a new induced potential (or, converged exactly, the same)
 Induced(chg, again) ==
@@ -321,7 +327,7 @@ FieldStep == pc = "field" /\ \E a \in 0..AMax : Field(a)
 NextStep ==
   \/ Ctor \/ BeginStep
   \/ FieldStep
-  \/ TrigRefresh \/ TrigSkip \/ Links \/ NoLinks \/ Euler
+  \/ TrigRefresh \/ TrigSkip \/ Links \/ NoLinks \/ EulerStep
   \/ InducedStep
   \/ Finish
 SpecStep == InitStep /\ [][NextStep]_vars
